@@ -2,6 +2,7 @@ package hx
 
 import (
 	"errors"
+	"fmt"
 	"os"
 
 	"github.com/gdamore/tcell/v2"
@@ -236,6 +237,9 @@ func (t *Tty) Write(b []byte) (int, error) {
 	}
 	t.log("Write", len(b), false)
 	t.WriteOut += len(b)
+	if t.S.TraceOn {
+		t.S.Note(fmt.Sprintf("%s writes %q", t.who(), b))
+	}
 	if t.OnWrite != nil {
 		t.OnWrite(t.who(), b)
 	}
